@@ -30,7 +30,7 @@ def main():
     import t_handlers
     from rsutil import TranslateError
     base_all = t_handlers.translate("/repo")
-    base = base_all["GenHandlers.v"] + base_all["GenHandlersCompletion.v"]
+    base = base_all["GenHandlers.v"] + base_all["GenHandlersCompletion.v"] + base_all["GenHandlersHost.v"]
     eq = open(os.path.join(COQ, "proofs", "GenHandlersEq.v")).read().replace(
         "From TG.Gen Require Import GenTokens GenFoldKinds GenHandlers.",
         "From TG.Gen Require Import GenTokens GenFoldKinds.\nFrom TG.Tie Require Import GenHandlers.")
@@ -43,6 +43,12 @@ def main():
         "From TG.Gen Require Import GenTokens GenCompletion GenAst GenHandlersCompletion.",
         "From TG.Gen Require Import GenTokens GenCompletion GenAst.\nFrom TG.Tie Require Import GenHandlersCompletion.")
     assert "TG.Tie" in eq3
+    eq4 = open(os.path.join(COQ, "proofs", "GenHandlersHostEq.v")).read().replace(
+        "From TG.Gen Require Import GenTokens GenAst GenHandlers GenHandlersHost.",
+        "From TG.Gen Require Import GenTokens GenAst.\nFrom TG.Tie Require Import GenHandlers GenHandlersHost.").replace(
+        "From TG.Proofs Require Import TreeNavProofs GenHandlersEq.",
+        "From TG.Proofs Require Import TreeNavProofs.\nFrom TG.Tie Require Import GenHandlersEq.")
+    assert "TG.Tie Require Import GenHandlersEq" in eq4 and "TG.Tie Require Import GenHandlers GenHandlersHost" in eq4
     assert "TG.Tie" in eq2 and "TG.Tie Require Import GenHandlersEq" in eq2
     for arg in sys.argv[1:]:
         patch = os.path.abspath(arg) if arg.endswith(".diff") else os.path.join(VERIF, "seeded", arg, "patch.diff")
@@ -58,7 +64,7 @@ def main():
             importlib.reload(t_handlers)
             try:
                 gen_all = t_handlers.translate(wt)
-                gen = gen_all["GenHandlers.v"] + gen_all["GenHandlersCompletion.v"]
+                gen = gen_all["GenHandlers.v"] + gen_all["GenHandlersCompletion.v"] + gen_all["GenHandlersHost.v"]
             except TranslateError as ex:
                 print("%-36s refused      %s" % (name, str(ex)[:150]))
                 continue
@@ -68,6 +74,10 @@ def main():
             open(os.path.join(tdir, "GenHandlers.v"), "w").write(gen_all["GenHandlers.v"])
             open(os.path.join(tdir, "GenHandlersCompletion.v"), "w").write(gen_all["GenHandlersCompletion.v"])
             open(os.path.join(tdir, "GenHandlersCompletionEq.v"), "w").write(eq3)
+            open(os.path.join(tdir, "GenHandlersHost.v"), "w").write(
+                gen_all["GenHandlersHost.v"].replace("From TG.Gen Require Import GenTokens GenHandlers.",
+                                                     "From TG.Gen Require Import GenTokens.\nFrom TG.Tie Require Import GenHandlers."))
+            open(os.path.join(tdir, "GenHandlersHostEq.v"), "w").write(eq4)
             open(os.path.join(tdir, "GenHandlersEq.v"), "w").write(eq)
             rc, out = coqc(os.path.join(tdir, "GenHandlers.v"), tdir)
             if rc != 0:
@@ -81,6 +91,10 @@ def main():
                 rc, out = coqc(os.path.join(tdir, "GenHandlersCompletion.v"), tdir)
             if rc == 0:
                 rc, out = coqc(os.path.join(tdir, "GenHandlersCompletionEq.v"), tdir)
+            if rc == 0:
+                rc, out = coqc(os.path.join(tdir, "GenHandlersHost.v"), tdir)
+            if rc == 0:
+                rc, out = coqc(os.path.join(tdir, "GenHandlersHostEq.v"), tdir)
             if rc != 0:
                 msg = " ".join(out.split())
                 k = msg.find("File ")
